@@ -17,6 +17,7 @@ CLAIMED = {
  "C13": ("TLC: MC_Tracker invariants Plausible/PublishedWithinJump/ClearedCompletely + trace validation with CPR!GlobalDecode and Geo (fixed-point haversine, guard bands) incl. threshold flights along meridians/equator", "7/C13"),
  "C14": ("TLC: MC_Tracker invariants LatestWins/DistIffPos/TrackIsSuperseded + trace validation of attributes and derived views (details, all_position, Display) after every step", "7/C14"),
  "C15": ("TLC: MC_Tracker PruneRemovesExactly/ReaddedIsFresh + trace validation of tick/prune histories driven through the guarded verif_backdate hook", "7/C15"),
+ "C19": ("TLC model checking of MC_Reader (inner reader with short reads / Interrupted, retry loops, caching wrapper; invariants WindowCorrect, NoOverread) over read/seek programs observed from the real decoder; every model schedule replayed through a scripted reader + random schedules, judged by Trace_Reader", "7/C19"),
 }
 NOT_YET = {}
 import subprocess
